@@ -357,10 +357,30 @@ func ruleL2(r *Report) {
 	for _, n := range sortedKeys(by) {
 		var bad *LSite
 		var badIns ssa.Instruction
+		var bare *LSite
+		var bareIns ssa.Instruction
 		for _, c := range by[n] {
 			if !c.s.Held.has("latch") && bad == nil {
 				bad, badIns = c.s, c.ins
 			}
+			// without the latch *and* without any other lock of the library: a different defect from
+			// a callback that runs under the collection mutex instead of the latch (KF10), and it gets
+			// a key of its own so that the known finding does not absorb it
+			if !c.s.Held.has("latch") && bare == nil {
+				any := false
+				for k := range c.s.Held {
+					if !strings.HasPrefix(k, "latch") {
+						any = true
+					}
+				}
+				if !any {
+					bare, bareIns = c.s, c.ins
+				}
+			}
+		}
+		if bare != nil {
+			o := h.Bad(n+"/no lock at all", r.P.InstrPos(bareIns), "positioned row callback invoked holding no lock of the library at all: commits are applied to the rows, and to the structure being iterated, while the callback runs")
+			setWitness(o, bare)
 		}
 		if bad != nil {
 			o := h.Bad(n, r.P.InstrPos(badIns), "positioned row callback invoked without the block latch: a commit can change the row between two reads of the callback")
